@@ -170,16 +170,16 @@ func C01Configs(thorough bool) []*world.Config {
 	if thorough {
 		add(world.UintCfg(2, u(1, 7), 2, B, "none"))
 		add(world.UintCfg(2, u(0, 8), 2, B, "none"))
-		add(world.UintCfg(2, u(1, 6), 2, M, "big"))
-		add(world.UintCfg(2, u(1, 5), 2, B, "tiny2"))
+		add(depth(world.UintCfg(2, u(1, 6), 2, M, "big"), 7))
+		add(depth(world.UintCfg(2, u(1, 5), 2, B, "tiny2"), 9))
 		add(world.UintCfg(3, []interface{}{uint(1), uint(2), uint(3), uint(4), uint(5), uint(6), uint(7), uint(8), uint(9), uint(12), uint(18)}, 1, B, "none"))
 		for a := 0; a < 1024; a++ {
 			ls := []uint8{uint8(a & 3), uint8(a >> 2 & 3), uint8(a >> 4 & 3), uint8(a >> 6 & 3), uint8(a >> 8 & 3)}
 			add(world.LKeyCfg(2, ls, 1, B, "none"))
 		}
-		add(world.StringCfg(3, []uint8{0, 1, 0, 2, 0, 1}, M, "big"))
+		add(depth(world.StringCfg(3, []uint8{0, 1, 0, 2, 0, 1}, M, "big"), 7))
 		add(world.BytesCfg(4, []uint8{0, 1, 0, 1, 0, 2}, M, "none"))
-		add(world.StructCfg(2, []uint8{0, 1, 0, 2, 0, 1}, B, "big"))
+		add(depth(world.StructCfg(2, []uint8{0, 1, 0, 2, 0, 1}, B, "big"), 7))
 	}
 	return cs
 }
